@@ -1,4 +1,4 @@
-import sys; sys.path[:0]=['/repo','/verif/.deps']
+import sys, os; sys.path[:0]=[os.environ.get('VERIF_REPO','/repo'),'/verif/.deps']
 import torch, numpy as np, itertools
 import qucumber
 from qucumber.nn_states import PositiveWaveFunction, ComplexWaveFunction, DensityMatrix
